@@ -376,7 +376,11 @@ func (t *Total) Calculate(cur currency.Code, rr cbc.Key) {
 	if t == nil {
 		return
 	}
-	zero := cur.Def().Zero()
+	def := cur.Def()
+	if def == nil {
+		return // unknown currency: left for validation to refuse
+	}
+	zero := def.Zero()
 	t.calculateFinalSum(zero, rr)
 	t.round(zero)
 }
